@@ -439,7 +439,7 @@ pub fn render_named(c: &RaCase, ifname: &str) -> Option<String> {
         it.push(("pref64", ymap(e)));
     }
     top.push(("router-advertisements", ymap(vec![(ifname, ymap(it))])));
-    let tree = ymap(top);
+    let tree = vary_key_order(&ymap(top));
     let text = emit(&tree);
     // the third-party emitter must have written what we meant, or the expectation is void
     if parse_yaml(&text).as_ref() != Some(&tree) {
